@@ -42,6 +42,7 @@ type out struct {
 	DistinctFilters int           `json:"distinct_filters"`
 	WallS       float64           `json:"wall_s"`
 	Harness     int               `json:"harness_panics"`
+	Scenarios   map[string][]string `json:"scenarios"` // directed scenario -> failure messages (empty = held)
 }
 
 func main() {
@@ -96,6 +97,29 @@ func main() {
 	st := eng.NewStats()
 	res := out{Prop: *prop, Profile: *profile, Seed: *seed, Shard: *shard, Hashes: map[string]bool{}, Counters: map[string]int64{}, Digests: map[string]string{}}
 	t0 := time.Now()
+	res.Scenarios = map[string][]string{}
+	if *shard == 0 && *only < 0 {
+		for _, sc := range eng.Scenarios {
+			for _, pr := range sc.Props {
+				if pr == *prop || *prop == "all" {
+					var msgs []string
+					func() {
+						defer func() {
+							if p := recover(); p != nil {
+								msgs = append(msgs, fmt.Sprintf("scenario panicked: %v", p))
+							}
+						}()
+						msgs = sc.Run()
+					}()
+					if msgs == nil {
+						msgs = []string{}
+					}
+					res.Scenarios[sc.Name] = msgs
+					break
+				}
+			}
+		}
+	}
 	for c := *shard; c < *cases; c += *nshards {
 		if *only >= 0 && c != *only {
 			continue
@@ -198,6 +222,11 @@ func main() {
 			fmt.Printf("%-40s %d\n", k, res.Counters[k])
 		}
 		fmt.Printf("cases=%d ops=%d distinct=%d masks=%d filters=%d wall=%.1fs\n", res.Cases, res.Ops, len(res.Hashes), res.DistinctMasks, res.DistinctFilters, res.WallS)
+	}
+	for n, msgs := range res.Scenarios {
+		for _, m := range msgs {
+			fmt.Printf("SCENARIO-FAIL %s: %s\n", n, m)
+		}
 	}
 	for _, v := range res.Violations {
 		fmt.Printf("VIOLATION-CASE case=%d seed=%d config=%s\n", v.Case, v.Seed, v.Config)
